@@ -193,3 +193,11 @@ class Position(Case):
 
 for c in (Hash, Tree, Position):
     register(c())
+
+
+# ---- lemmas for the stubs this check relies on (see props.common.Borrowed) ----
+from props.common import Borrowed, REGISTRY
+from props import c01 as _c01
+register(Borrowed(REGISTRY['C01.reverse_byte'], 'C12', 'reverse_byte'))
+from props import c02 as _c02
+register(Borrowed(REGISTRY['C02.crypt'], 'C12', 'threefish', keep=lambda sh: str(sh.get('cipher', '')).startswith('threefish')))
